@@ -243,7 +243,7 @@ def r4(rr, repo):
             return (mod, methods[f.attr], f.value)
         return None
     n = 0
-    for name in ('exit',):
+    for name in ('exit', 'fini'):
         fn = methods.get(name)
         if fn is None:
             raise Unresolved(f'{FILTER}: Filter.{name} not found')
@@ -273,9 +273,17 @@ def r4(rr, repo):
     # under a lock the terminal emission also takes. Setting a flag alone leaves a window (thread past its loop test, waiting for the emitter lock).
     lm, stop = repo.find(f'{LIN}::OpenFilterLineage.stop_lineage_heart_beat')
     _, hb = repo.find(f'{LIN}::OpenFilterLineage._heartbeat_loop')
-    joins = [c for c in q.calls_in(stop) if isinstance(c.func, ast.Attribute) and c.func.attr == 'join']
+    joins = [c for c in q.calls_in(stop) if isinstance(c.func, ast.Attribute) and c.func.attr == 'join' and not c.args and not c.keywords]      # a join with a timeout may return while the thread still runs
     sets = [c for c in q.calls_in(stop) if isinstance(c.func, ast.Attribute) and c.func.attr == 'set']
-    rr.ob('stop_lineage_heart_beat raises the stop flag', bool(sets), lm, stop, key='stop-sets-flag')
+    rr.ob('stop_lineage_heart_beat raises the stop flag, unconditionally', bool(sets) and not any(q.guards_of(c, stop=stop) for c in sets), lm, sets[0] if sets else stop, key='stop-sets-flag')
+    # the flag is a latch: once raised it stays up until the next start - the loop test of a heartbeat thread that is still alive (slow emission in flight) must find it up
+    _, lcls = repo.find(f'{LIN}::OpenFilterLineage')
+    flag = U(sets[0].func.value) if sets else 'self._stop_event'
+    clears = [c for c in q.calls_in(lcls) if isinstance(c.func, ast.Attribute) and c.func.attr == 'clear' and U(c.func.value) == flag]
+    rebinds = [n_ for n_ in ast.walk(lcls) if isinstance(n_, ast.Assign) and any(U(t) == flag for t in n_.targets) and enclosing_function(n_).name != '__init__']
+    starters = {enclosing_function(c).name for c in clears}
+    rr.ob('the stop flag, once raised, is lowered only by starting the heartbeat again (never by the stopper or anything else): a heartbeat thread that outlives the stop call still sees it', starters <= {'start_lineage_heart_beat'} and not rebinds, lm,
+          next((c for c in clears if enclosing_function(c).name != 'start_lineage_heart_beat'), rebinds[0] if rebinds else stop), witness=f'{flag}.clear() in: {sorted(starters) or "nowhere"}' + ('; flag rebound' if rebinds else ''), key='stop-flag-latched')
     term_locked = all(q.within_with(c, 'self._lock') for f_ in ('emit_stop', 'emit_complete') for c in q.calls_in(repo.find(f'{LIN}::OpenFilterLineage.{f_}')[1]) if U(c.func) == 'self._emit_event')
     recheck = any(isinstance(n_, ast.If) and 'is_set()' in U(n_.test) and q.within_with(n_, 'self._lock') for n_ in ast.walk(hb))
     rr.ob('stopping the heartbeat excludes a later RUNNING event: the stopper joins the heartbeat thread, or the heartbeat re-checks the flag and the terminal events are emitted under the same lock',
@@ -347,3 +355,89 @@ def r5(rr, repo):
     rr.ob('a second start while the heartbeat is alive does nothing (never two heartbeat threads)', bool(alive), lm, start, key='hb-single')
     clears = [c for c in q.calls_in(start) if U(c.func) == 'self._stop_event.clear']
     rr.ob('the stop flag is cleared before the thread is started', bool(clears) and bool(th) and clears[0].lineno < th[0].lineno, lm, start, key='hb-clear-first')
+
+
+@rule('C18.R6', "START cannot be lost to the spelling of a configuration key: every key that becomes a field of the facet dataclass goes through the key normaliser AFTER the configuration is flattened (nested keys "
+                "become field names too), and the normaliser is total - it turns any key into a string, replaces every character outside [0-9A-Za-z_], and re-spells what is still not an identifier, a keyword, "
+                "or a name the facet defines itself; a key that make_dataclass rejects raises inside _emit_event's try/except and the event is only logged")
+def r6(rr, repo):
+    import re._parser as sp
+    import re._constants as sc
+    lm, mk = repo.find(f'{LIN}::create_openfilter_facet_with_fields')
+    _, norm = repo.find(f'{LIN}::normalize_facet_keys')
+    # 1. order: the last rebinding of the dict the fields are built from is the normaliser, applied to the flattened dict
+    mdc = [c for c in q.calls_in(mk) if U(c.func) == 'make_dataclass']
+    rr.floor('make_dataclass calls building the facet', len(mdc), 1, lm, mk)
+    loops = [n for n in walk_scope(mk) if isinstance(n, ast.For) and U(n.iter).endswith('.items()') and any(isinstance(c, ast.Call) and isinstance(c.func, ast.Attribute) and c.func.attr == 'append' for c in ast.walk(n))]
+    if not loops:
+        raise Unresolved(f'{LIN}: create_openfilter_facet_with_fields has no loop that turns the items of a dict into dataclass fields')
+    src = U(loops[0].iter)[:-len('.items()')]
+    binds = [n for n in walk_scope(mk) if isinstance(n, ast.Assign) and any(U(t) == src for t in n.targets) and n.lineno < loops[0].lineno]
+    calls = [(U(n.value.func) if isinstance(n.value, ast.Call) else None) for n in binds]
+    def applied(call):     # names of the helper functions applied, outermost first, following nesting f(g(x))
+        out = []
+        while isinstance(call, ast.Call) and isinstance(call.func, ast.Name):
+            out.append(call.func.id)
+            call = call.args[0] if call.args else None
+        return out
+    chain = []
+    for n in binds:
+        chain = applied(n.value) + chain if isinstance(n.value, ast.Call) and n.value.args and U(n.value.args[0]) == src else applied(n.value)
+    ok = 'normalize_facet_keys' in chain and 'flatten_dict' in chain and chain.index('normalize_facet_keys') < chain.index('flatten_dict')
+    rr.ob('the key normaliser is applied to the flattened dict (it is the last thing done to the keys before they become field names)', ok, lm, binds[-1] if binds else mk,
+          witness=' <- '.join(chain) or 'no helper applied', key='normalise-after-flatten')
+    # 2. the normaliser is total
+    loop = [n for n in walk_scope(norm) if isinstance(n, ast.For) and U(n.iter).endswith('.items()')]
+    if len(loop) != 1 or not isinstance(loop[0].target, ast.Tuple):
+        raise Unresolved(f'{LIN}: normalize_facet_keys is no longer one loop over the items of its argument')
+    k = U(loop[0].target.elts[0])
+    first = [n for n in loop[0].body if isinstance(n, ast.Assign) and U(n.targets[0]) == k]
+    def judge(text, ok, known_bad, node, witness, key):
+        # recognised and right -> holds; the known insufficient shape -> violated; anything else is an idiom this rule does not know -> unresolved, never an alarm
+        if ok or known_bad:
+            rr.ob(text, ok, lm, node, witness=witness, key=key)
+        else:
+            rr.unresolved(text + ' - the normaliser is written in a way this rule does not recognise', lm, node, witness=witness, key=key)
+    str_ok = bool(first) and any(isinstance(c, ast.Call) and U(c.func) == 'str' and U(c.args[0]) == k for c in ast.walk(first[0].value))
+    raw_method = bool(first) and isinstance(first[0].value, ast.Call) and isinstance(first[0].value.func, ast.Attribute) and U(first[0].value.func.value) == k
+    judge('the normaliser accepts any key: the first thing it does is turn the key into a string', str_ok, raw_method or not first, first[0] if first else loop[0],
+          U(first[0].value)[:80] if first else 'no rebinding of the key', 'normalise-str')
+    subs = [c for c in q.calls_in(loop[0]) if U(c.func) == 're.sub' and len(c.args) == 3 and U(c.args[2]) == k and q.const_str(c.args[0]) is not None]
+    cls_ok, wit = False, 'no re.sub over the key'
+    for c in subs:
+        try:
+            parsed = list(sp.parse(c.args[0].value))
+        except Exception:
+            continue
+        if len(parsed) == 1 and parsed[0][0] is sc.IN and parsed[0][1] and parsed[0][1][0][0] is sc.NEGATE:
+            allowed = set()
+            for op, av in parsed[0][1][1:]:
+                if op is sc.LITERAL:
+                    allowed.add(chr(av))
+                elif op is sc.RANGE:
+                    allowed |= {chr(x) for x in range(av[0], av[1] + 1)}
+                else:
+                    allowed.add('<category>')
+            ident = set('0123456789abcdefghijklmnopqrstuvwxyzABCDEFGHIJKLMNOPQRSTUVWXYZ_')
+            rep = q.const_str(c.args[1])
+            cls_ok = allowed <= ident and rep is not None and rep != '' and set(rep) <= ident
+            wit = f're.sub({c.args[0].value!r}, {rep!r}, {k}): keeps {len(allowed)} characters, all identifier characters: {allowed <= ident}'
+    rebinds = [n for n in ast.walk(loop[0]) if isinstance(n, ast.Assign) and U(n.targets[0]) == k]
+    def literal_edits_only(v):    # str(k) / k.lstrip(..) / k.replace('-', '_') / k[0].lower() + k[1:]: a finite list of characters is dealt with, every other one passes
+        return all(not isinstance(c, ast.Call) or U(c.func) in ('str',) or (isinstance(c.func, ast.Attribute) and c.func.attr in ('lstrip', 'rstrip', 'strip', 'replace', 'lower', 'upper')) for c in ast.walk(v))
+    judge('every character that cannot be part of an identifier is replaced (a negated class of identifier characters, replaced by identifier characters)', cls_ok, not subs and all(literal_edits_only(n.value) for n in rebinds),
+          subs[0] if subs else loop[0], wit, 'normalise-class')
+    fall = [n for n in loop[0].body if isinstance(n, ast.If) and 'isidentifier()' in U(n.test) and 'iskeyword(' in U(n.test)]
+    own = sorted({e.elts[0].value for e in ast.walk(mk) if isinstance(e, ast.Tuple) and len(e.elts) == 3 and q.const_str(e.elts[0]) is not None})
+    fb_ok = False
+    if fall:
+        t = fall[0].test
+        parts = [U(v) for v in t.values] if isinstance(t, ast.BoolOp) and isinstance(t.op, ast.Or) else [U(t)]
+        names_covered = all(nm.lstrip('_') != nm or any(repr(nm) in p_ or f'"{nm}"' in p_ for p_ in parts) for nm in own)     # names with a leading '_' cannot collide: the normaliser strips leading underscores
+        pre = [n for n in fall[0].body if isinstance(n, ast.Assign) and U(n.targets[0]) == k and isinstance(n.value, ast.JoinedStr) and n.value.values and isinstance(n.value.values[0], ast.Constant)
+               and str(n.value.values[0].value)[:1].isalpha() and str(n.value.values[0].value).isidentifier()]
+        fb_ok = f'not {k}.isidentifier()' in parts and f'iskeyword({k})' in parts and names_covered and bool(pre) and fall[0] is [n for n in loop[0].body if isinstance(n, (ast.If, ast.Assign)) and n.lineno < max(x.lineno for x in loop[0].body)][-1]
+    tests_key = [n for n in loop[0].body if isinstance(n, ast.If) and any(isinstance(x, ast.Name) and x.id == k for x in ast.walk(n.test)) and any(isinstance(a, ast.Assign) and U(a.targets[0]) == k for a in ast.walk(n))]
+    only_case = all('isupper()' in U(n.test) or 'islower()' in U(n.test) for n in tests_key)      # the only conditional re-spelling concerns letter case: keywords, digits, clashes pass
+    judge("what is still not a usable field name (empty, leading digit, a keyword, a name the facet defines itself) is re-spelled with an identifier prefix, as the last step before the key is stored", fb_ok, not fall and only_case,
+          fall[0] if fall else loop[0], (U(fall[0].test)[:140] if fall else 'no isidentifier()/iskeyword() fallback') + f'; facet-defined names: {own}', 'normalise-fallback')
